@@ -46,6 +46,9 @@ func TestAll(t *testing.T) {
 	if got := IdleStream(4); !reflect.DeepEqual(got, []int{0, 1, 2, 3}) || Ticks() != 3 {
 		t.Fatal("IdleStream / Ticks", got)
 	}
+	if v := DeferredAtomic(); v != 1 {
+		t.Fatal("DeferredAtomic", v)
+	}
 	if Misc(3) != 11 {
 		t.Fatal("Misc", Misc(3))
 	}
